@@ -248,11 +248,14 @@ def _validate_types(nodes: dict[str, HyperNode], nx_graph: nx.DiGraph) -> None:
 
 def _validate_edge_types(source_node: HyperNode, target_node: HyperNode, value_name: str) -> None:
     """Check one producer -> consumer pair for a missing annotation or a type mismatch."""
-    source_name, target_name = source_node.name, target_node.name
-    # Get types using universal capability methods
-    output_type = source_node.get_output_type(value_name)
-    input_type = target_node.get_input_type(value_name)
+    # A nested graph may hold several producers / consumers of the value: every pair must agree
+    for output_type in source_node.get_output_types(value_name):
+        for input_type in target_node.get_input_types(value_name):
+            _validate_type_pair(source_node.name, target_node.name, value_name, output_type, input_type)
 
+
+def _validate_type_pair(source_name: str, target_name: str, value_name: str, output_type: Any, input_type: Any) -> None:
+    """Check one (producer type, consumer type) pair."""
     # Check for missing annotations
     if output_type is None:
         raise GraphConfigError(
